@@ -809,11 +809,25 @@ def _failure_key(rel: str, f: dict) -> str:
 def oracle(ctx: Ctx, deep: bool = False):
     """The property stated on the implementation: every file merges, resolves, and instantiates for real."""
     info = _info()
+    for s_ in info.instance_defaults:
+        ctx.count(("instance-default", s_), True, bucket="oracle/instance-default")
+        yield Violation("defaults:instance-default:" + s_, f"{s_}: a dataclass instance / mutable literal is a class-level "
+                        "default (ValueError: mutable default on Python >= 3.11)", {"op": "source", "where": s_})
     if _STATE.get("unimportable") or info.failures:
+        import re
+
+        groups: dict[str, list] = {}
         for what, tb in info.failures or [("import", "no configuration could be read")]:
             ctx.count(("import", what), True, bucket="oracle/import-failure")
-            yield Violation("import:" + what.replace(" ", "-"), f"{what} fails on the running Python",
-                            {"op": "import", "what": what, "traceback": tb})
+            frames = re.findall(r'File "([^"]+)", line \d+, in (\S+)', tb)
+            inside = [(f, fn) for f, fn in frames if str(REPO) in f]
+            where = (inside[-1][0].replace(str(REPO) + "/", "") if inside else "unknown")
+            last = tb.strip().split("\n")[-1]
+            groups.setdefault(f"import:{where}:{last.split(':')[0]}", []).append((what, tb))
+        for key, items in groups.items():
+            yield Violation(key, f"{items[0][0]} (+{len(items) - 1} more) fails on the running Python: "
+                                 f"{items[0][1].strip().splitlines()[-1][:200]}",
+                            {"op": "import", "what": items[0][0], "all": [w for w, _ in items], "traceback": items[0][1]})
         return
     for rel, why in info.parse_failures:
         yield Violation(f"yaml:{rel}:parse", f"{rel} cannot be parsed: {why}", {"op": "parse", "path": rel, "error": why})
@@ -858,11 +872,6 @@ def oracle(ctx: Ctx, deep: bool = False):
                                  f"{rec['error']}: {rec['message'][:160]}",
                             {"op": "default", "kind": rec["kind"], "config": rec["config"], "error": rec["error"],
                              "message": rec["message"], "traceback": rec.get("traceback", "")[-1200:]})
-    # source-level facts
-    for s in info.instance_defaults:
-        ctx.count(("instance-default", s), True, bucket="oracle/instance-default")
-        yield Violation("defaults:instance-default:" + s, f"{s}: a dataclass instance / mutable literal is a class-level default "
-                        "(ValueError: mutable default on Python >= 3.11)", {"op": "source", "where": s})
 
 
 def replay(rep: dict) -> bool:
